@@ -122,7 +122,22 @@ pub fn check_acc(c: &Acc) -> Verdict {
         if !int.is_zero() {
             let p = x.with_prec(nd + ext as u64);
             ensure!(v, p.as_bigint_and_exponent() == (want_int.clone(), scale + ext), "C18/extend:with_prec", "with_prec(digits+{}) does not append exactly {} zeros", ext, ext);
+            // the rounding forms extend exactly too, whatever the mode (nothing is discarded)
+            let mode = [bigdecimal::RoundingMode::Up, bigdecimal::RoundingMode::Down, bigdecimal::RoundingMode::Ceiling, bigdecimal::RoundingMode::Floor, bigdecimal::RoundingMode::HalfUp, bigdecimal::RoundingMode::HalfDown, bigdecimal::RoundingMode::HalfEven][(c.ext as usize + c.d.int.len()) % 7];
+            let q = x.with_precision_round(std::num::NonZeroU64::new(nd + ext as u64).unwrap(), mode);
+            ensure!(v, q.as_bigint_and_exponent() == (want_int.clone(), scale + ext), "C18/extend:with_precision_round", "with_precision_round(digits+{}, {:?}) does not append exactly {} zeros", ext, mode, ext);
+            let w = x.with_scale_round(scale + ext, mode);
+            ensure!(v, w.as_bigint_and_exponent() == (want_int.clone(), scale + ext), "C18/extend:with_scale_round", "with_scale_round(scale+{}, {:?}) does not append exactly {} zeros", ext, mode, ext);
+        } else {
+            // a zero extended to a precision stays a zero
+            let p = x.with_prec(1 + ext as u64);
+            ensure!(v, p.as_bigint_and_exponent().0.is_zero(), "C18/extend:with_prec-zero", "with_prec({}) of a zero is {:?}", 1 + ext, D::of(&p));
         }
+    }
+    // a reference made from a bare integer is that integer with scale 0
+    {
+        let ri = bigdecimal::BigDecimalRef::from(&int);
+        ensure!(v, ri.to_owned().as_bigint_and_exponent() == (int.clone(), 0) && ri.sign() == int.sign() && ri.count_digits() == nd, "C18/ref:from-bigint", "BigDecimalRef::from(&BigInt) reports {:?}", D::of(&ri.to_owned()));
     }
     v
 }
@@ -142,10 +157,16 @@ fn small_case(i: u64) -> Option<Acc> {
 }
 
 fn acc_strategy(max_len: usize) -> BoxedStrategy<Acc> {
-    (gen::sdigits(max_len), gen::len_strategy(max_len), 0..4u8, gen::scale_strategy(10_000), gen::len_strategy(max_len), 0..3u8)
+    (gen::sdigits(max_len), gen::len_strategy(max_len), 0..4u8, gen::scale_strategy(10_000), gen::len_strategy(max_len), 0..4u8)
         .prop_map(|(int, tz, with_tz, scale, ext, with_ext)| {
             let int = if with_tz < 2 && int != "0" { format!("{}{}", int, "0".repeat(tz)) } else { int };
-            Acc { d: D::new(int, scale), ext: if with_ext == 0 { 0 } else { ext as u32 } }
+            // extensions across the power-of-ten algorithm switches (19/20, 589/590, 1179/1180) with multi-limb integers
+            let ext = match with_ext {
+                0 => 0,
+                3 => [18usize, 19, 20, 21, 588, 589, 590, 591, 1179, 1180, 1181][ext % 11],
+                _ => ext,
+            };
+            Acc { d: D::new(int, scale), ext: ext as u32 }
         })
         .boxed()
 }
